@@ -338,7 +338,7 @@ func (h *hrun) finish(key string) {
 
 // ------------------------------------------------------------ scripted histories
 
-var scriptNames = []string{"set-password", "drop-recreate", "revoke-read", "downgrade-write", "unset-admin", "drop-bearer", "drop-cached-request"}
+var scriptNames = []string{"set-password", "drop-recreate", "revoke-read", "downgrade-write", "unset-admin", "drop-bearer", "drop-cached-request", "no-admin-left"}
 
 // scripted runs canonical scenario k with the change issued on node x and
 // probed on node y.
@@ -403,6 +403,21 @@ func scripted(h *hrun, k, x, y int) {
 		c.Why = "dropped-user"
 		h.query(y, c, "SHOW USERS", "")
 		h.write(y, c, "db0")
+	case "no-admin-left":
+		// users exist but none is an administrator: the handler no longer
+		// authenticates at all; nothing may run, with or without credentials
+		h.create(x, u, false)
+		h.grant(x, u, "db0", influxql.AllPrivileges)
+		h.query(y, h.basic(u), "SELECT v FROM cpu", "db0")
+		h.setAdmin(x, rootName, false)
+		h.query(y, h.basic(u), "SELECT v FROM cpu", "db0")
+		h.write(y, h.basic(u), "db0")
+		h.request(y, reqSpec{Endpoint: "query", Method: "POST", Q: "CREATE USER eve WITH PASSWORD 'evepw' WITH ALL PRIVILEGES"}, mustShape("CREATE USER eve WITH PASSWORD 'evepw' WITH ALL PRIVILEGES", ""))
+		h.request(y, reqSpec{Endpoint: "query", Method: "POST", Q: "SELECT v FROM cpu", DB: "db0"}, mustShape("SELECT v FROM cpu", "db0"))
+		h.request(y, reqSpec{Endpoint: "write", Method: "POST", DB: "db0"}, nil)
+		h.query(y, cred{Kind: "basic", User: rootName, Pass: rootPw}, "DROP DATABASE db0", "")
+		h.setAdmin(x, rootName, true)
+		h.query(y, cred{Kind: "basic", User: rootName, Pass: rootPw}, "SHOW USERS", "")
 	}
 	h.finish("")
 }
@@ -637,11 +652,11 @@ func runHistories(root string) {
 		}
 	}
 	crng := r.Rand("concurrent")
-	for i, n := 0, r.Pick(5, 60); i < n; i++ {
+	for i, n := 0, r.Pick(5, 50); i < n; i++ {
 		jobs = append(jobs, job{id: fmt.Sprintf("conc/%d", i), kind: 2, seed: crng.Int63()})
 	}
 	hrng := r.Rand("histories")
-	for i, n := 0, r.Pick(30, 400); i < n; i++ {
+	for i, n := 0, r.Pick(30, 300); i < n; i++ {
 		jobs = append(jobs, job{id: fmt.Sprintf("hist/%d", i), kind: 1, seed: hrng.Int63()})
 	}
 	var todo []job
